@@ -115,8 +115,14 @@ class DirHandler(BaseHandler):
             return False
 
         if time.time() - statval[stat.ST_MTIME] < self.cachetime:
-            with self.vfs.open(self.cachename, "rb") as fp:
-                self.fileentries = pickle.load(fp)
+            try:
+                with self.vfs.open(self.cachename, "rb") as fp:
+                    self.fileentries = pickle.load(fp)
+            except Exception:
+                # A cut-off or otherwise unreadable cache file (its writer was
+                # killed, the disk was full, or another request is rewriting it
+                # right now): regenerate the listing instead of failing.
+                return False
             self.fromcache = True
             return True
         return False
